@@ -50,27 +50,27 @@ Qed.
 
 (* declarations as written: every analyser's output is IDENTICAL (naming rules included);
    the outline is identical up to the letter case of its detail strings *)
-Theorem report_exact r r' : node_sim r r' -> decl_exact r r' -> dot_ok r = true ->
+Theorem report_exact r r' : node_sim r r' -> decl_exact r r' ->
   analyze_today r = analyze_today r' /\
   lints r = lints r' /\
   fst (request (fresh_doc r)) = fst (request (fresh_doc r')) /\
   map norm_detail (outline r) = map norm_detail (outline r').
 Proof.
-  intros Hs Hd Hk. split; [apply unusedvar_exact; assumption|].
+  intros Hs Hd. split; [apply unusedvar_exact; assumption|].
   split; [apply lints_exact; assumption|]. split; [apply request_exact; assumption|].
   apply outline_decl_exact; assumption.
 Qed.
 
 (* everything re-cased, declarations too: the non-naming rules still agree up to the case of the
    name they quote; so does the outline *)
-Theorem report_sim r r' : node_sim r r' -> dot_ok r = true ->
+Theorem report_sim r r' : node_sim r r' ->
   Forall2 diag_sim (analyze_today r) (analyze_today r') /\
   ret_type_lint r = ret_type_lint r' /\
   Forall2 ldiag_sim (unpurged_lint r) (unpurged_lint r') /\
   Forall2 ldiag_sim (inherited_lint r) (inherited_lint r') /\
   Forall2 dsym_sim (outline r) (outline r').
 Proof.
-  intros Hs Hk. split; [apply unusedvar_sim; assumption|].
+  intros Hs. split; [apply unusedvar_sim; assumption|].
   split; [apply ret_type_lint_eq; assumption|]. split; [apply unpurged_lint_sim; assumption|].
   split; [apply inherited_lint_sim; assumption|apply outline_sim_list; assumption].
 Qed.
